@@ -222,6 +222,42 @@ class C06(Check):
         self.tree()
         for hc in history_cases(tier):
             yield hc
+        # every character in every position of the lookup value / the path, and legal requests at and beyond every
+        # natural length limit (TFTP must decide like HTTP for them, too)
+        for cfg in (mkcfg("/a/...", True, key="k", cont=True), mkcfg("/a/pre-...-suf/b", False, key="k", cont=True, ign=1),
+                    mkcfg("/...", True, key=":system_id:"), mkcfg("/a/b", False)):
+            rp = cfg["rpath"]
+            extra = "" if cfg["filemode"] else "/a"
+            for tftp in (False, True):
+                seen = set()
+                pats = ["%s", "a%s", "%sa", "a%sb"] if cfg["key"] else ["/%s", "/a%s"]
+                if tftp:
+                    pats = pats[::2]
+                for x in fileh.char_sweep():
+                    for pat in pats:
+                        v = pat.replace("%s", x)
+                        u = (rp.replace("...", v) + extra) if cfg["key"] else (rp + v)
+                        if u not in seen:
+                            seen.add(u)
+                            yield {"tftp": tftp, "cfg": cfg, "uri": u}
+                    u = rp.replace("/a", "/a" + x, 1).replace("...", "a") + extra
+                    if u not in seen:
+                        seen.add(u)
+                        yield {"tftp": tftp, "cfg": cfg, "uri": u}
+                base = rp.replace("...", "a") + extra
+                longs = [fileh.pct_all(base).replace("%2f", "/"), rp.replace("...", "a" * 100) + extra]
+                longs += list(fileh.long_requests(base) if cfg["rpath"] == "/a/..." else
+                              fileh.long_requests(base, (255, 256, 257, 300, 1000)))
+                for n in (250, 255, 256, 300, 1000):
+                    longs.append(rp.replace("...", "v" * n) + extra)
+                    if not cfg["filemode"]:
+                        longs.append(rp.replace("...", "a") + "/" + "/".join(["d" * 50] * (n // 50)) + "/f")
+                        longs.append(rp.replace("...", "a") + "/" * n + "a")
+                for u in longs:
+                    for w in ((u,) if not tftp else (u, u[1:])):
+                        if w not in seen:
+                            seen.add(w)
+                            yield {"tftp": tftp, "cfg": cfg, "uri": w}
         cfgs = all_configs()
         n_all = 2 if tier == "quick" else 3
         if os.environ.get("C06_LIMIT_CFGS"):
@@ -230,7 +266,9 @@ class C06(Check):
         short2 = list(fileh.tokens_upto(ALPHABET, 2))
         short1 = list(fileh.tokens_upto(ALPHABET, 1))
         for ci, cfg in enumerate(cfgs):
-            for tftp in (False, True):
+            # quick tier: every third configuration is driven through TFTP only (a TFTP case also runs the HTTP handler
+            # of the same configuration on the normalised name)
+            for tftp in ((True,) if (tier == "quick" and ci % 3 == 2) else (False, True)):
                 seen = set()
 
                 def emit(u):
